@@ -77,9 +77,6 @@ def r_aligned_or_same_layout(prog: Program, col: Collector, refs: Refs, cat: Cat
                     else:
                         col.unresolved(construct, why, f.loc(node))
     col.cur.analysed["alignment_fast_paths"] = n
-    if n < 3:
-        raise AnalysisError(f"{rule}: only {n} fast path(s) around align_tensors found (3 confirmed by hand in funsor/tensor.py: eager_binary_tensor_tensor, "
-                            "eager_finitary? / eager_getitem_tensor_tensor)")
 
 
 def r_unit_axis_padding(prog: Program, col: Collector, refs: Refs, cat: Catalogue, rule: str):
@@ -116,8 +113,6 @@ def r_unit_axis_padding(prog: Program, col: Collector, refs: Refs, cat: Catalogu
                       f"`{recv}` is reshaped to `{src}.shape` plus unit axes: `{src}` is a different array (its layout need not be that of `{recv}`, e.g. before / after alignment), "
                       "so the data are re-interpreted under another dimension order whenever the two shapes differ", f.loc(c))
     col.cur.analysed["unit_axis_reshapes"] = n
-    if n == 0:
-        raise AnalysisError(f"{rule}: no reshape of the form x.reshape(x.shape + (1,) * n) found (anchor: eager_getitem_tensor_tensor)")
 
 
 def _eval_int(e: ast.AST, env: Dict[str, int]):
@@ -212,5 +207,3 @@ def r_index_padding_count(prog: Program, col: Collector, refs: Refs, cat: Catalo
                   (f"for a tensor with {bad[0]} event dims indexed at offset {bad[1]} the index array gets {bad[2]} unit axes instead of {bad[0] - 1}: it then broadcasts against "
                    "the wrong dimensions of the result (a batch dim of the index is paired with an event dim of the indexed tensor)") if bad else "", f.loc(pads[0][0]))
     col.cur.analysed["tensor_by_tensor_indexing_kernels"] = n
-    if n == 0:
-        raise AnalysisError(f"{rule}: no rule registered for Binary(GetitemOp, Tensor, Tensor) found")
